@@ -164,11 +164,19 @@ class ExcelCompiler:
 
             if self.cycles:
                 def _eval(cell, cse_array_address=None):
-                    if isinstance(cell, _CycleCell):
+                    if not isinstance(cell, _CycleCell):
                         # (the range of a CSE Array formula is not a cell)
-                        cell.start_calcs()
-                    return eval_ctx(
-                        cell.formula, cse_array_address=cse_array_address)
+                        return eval_ctx(
+                            cell.formula, cse_array_address=cse_array_address)
+
+                    cell.start_calcs()
+                    try:
+                        return eval_ctx(
+                            cell.formula, cse_array_address=cse_array_address)
+                    except BaseException:
+                        # not calculated, and no longer being calculated
+                        cell.wip = False
+                        raise
 
             else:
                 def _eval(cell, cse_array_address=None):
